@@ -47,6 +47,8 @@ func main() {
 		{"ecdsap384", canon.AlgECDSAP384, 384, 257, ""},
 		{"ecdsap384-d0", canon.AlgECDSAP384, 384, 256, "d0"},
 		{"ed25519", canon.AlgED25519, 256, 257, ""},
+		// the largest modulus the library takes (512 octets)
+		{"rsasha256-4096", canon.AlgRSASHA256, 4096, 257, ""},
 	}
 	for _, s := range specs {
 		kf := filepath.Join(dir, "dnssec-"+s.name+".key")
